@@ -104,8 +104,21 @@ func (w wWidth) attr() string {
 		return fmt.Sprintf(` width="%s%%"`, strconv.FormatFloat(float64(w.Num)/float64(w.Den), 'f', -1, 64))
 	case "x":
 		return fmt.Sprintf(` width="%dpx"`, w.Num)
+	case "xf":
+		return fmt.Sprintf(` width="%s"`, strconv.FormatFloat(float64(w.Num)/float64(w.Den), 'f', -1, 64)+"px")
 	}
 	return ""
+}
+
+// a pixel width with a fractional part: the Outlook cell carries it as written; what the column hands to its children is the
+// width rounded to whole pixels (half to even, as %.0f does) — that is the Model's input
+func (w wWidth) roundedPx() int {
+	q, r := w.Num/w.Den, w.Num%w.Den
+	switch {
+	case 2*r > w.Den, 2*r == w.Den && q%2 == 1:
+		return q + 1
+	}
+	return q
 }
 
 func (w wWidth) enc() string {
@@ -114,6 +127,8 @@ func (w wWidth) enc() string {
 		return fmt.Sprintf("p%d/%d", w.Num, w.Den)
 	case "x":
 		return fmt.Sprintf("x%d", w.Num)
+	case "xf":
+		return fmt.Sprintf("x%d", w.roundedPx())
 	}
 	return "a"
 }
@@ -409,7 +424,9 @@ func (d *wDoc) expected(resp string) wVals {
 	for i, it := range d.Items {
 		if it.Col != nil {
 			p := next()
-			v[fmt.Sprintf("col:%d", i)] = p[1]
+			if it.Col.W.Kind != "xf" { // a fractional pixel width is printed as written; only what it hands down is compared
+				v[fmt.Sprintf("col:%d", i)] = p[1]
+			}
 			if p[3] != "-" {
 				v[fmt.Sprintf("leaf:%d", i)] = p[3]
 			}
@@ -419,7 +436,9 @@ func (d *wDoc) expected(resp string) wVals {
 		v[fmt.Sprintf("grp:%d", i)] = p[1]
 		for j := range it.Cols {
 			q := next()
-			v[fmt.Sprintf("gcol:%d_%d", i, j)] = q[1]
+			if it.Cols[j].W.Kind != "xf" {
+				v[fmt.Sprintf("gcol:%d_%d", i, j)] = q[1]
+			}
 			if q[3] != "-" {
 				v[fmt.Sprintf("leaf:%d_%d", i, j)] = q[3]
 			}
@@ -474,6 +493,9 @@ func genWidth(r *Rng) wWidth {
 	case 1:
 		return wWidth{"p", []int{3333, 1250, 6667}[r.Intn(3)], 100}
 	case 2:
+		if r.Bool(1, 3) {
+			return wWidth{"xf", []int{375, 225, 377, 301}[r.Intn(4)], 2} // 187.5 112.5 188.5 150.5 px
+		}
 		return wWidth{"x", []int{100, 150, 200}[r.Intn(3)], 1}
 	}
 	return wWidth{Kind: "a"}
@@ -570,6 +592,13 @@ func widthDocs(tier string, seed int64) []*wDoc {
 			docs = append(docs, &wDoc{Body: body, Sec: plain, Items: []wItem{{Group: &wWidth{Kind: "a"}, Cols: []wCol{{W: wWidth{"p", 25, 1}, Leaf: wLeaf{Kind: leaf}}, {W: wWidth{Kind: "a"}, Leaf: wLeaf{Kind: leaf}}}}}})
 		}
 	}
+	// pixel widths with a fractional part on columns (in a section and in a group): what they hand down is the rounded width
+	for _, w := range []wWidth{{"xf", 375, 2}, {"xf", 225, 2}, {"xf", 377, 2}, {"xf", 1001, 4}} {
+		for _, leaf := range []string{"image", "divider"} {
+			docs = append(docs, &wDoc{Body: 600, Sec: plain, Items: []wItem{{Col: &wCol{W: w, Leaf: wLeaf{Kind: leaf}}}, {Col: &wCol{W: wWidth{Kind: "a"}, Leaf: wLeaf{Kind: "text"}}}}})
+			docs = append(docs, &wDoc{Body: 600, Wrapper: &wEdges{PadForm: "2", Pad: [4]int{0, 20, 0, 20}}, Sec: plain, Items: []wItem{{Group: &wWidth{"p", 50, 1}, Cols: []wCol{{W: w, Leaf: wLeaf{Kind: leaf}}, {W: wWidth{Kind: "a"}, Leaf: wLeaf{Kind: "text"}}}}}})
+		}
+	}
 	// images with their own border, images with an explicit width below / above what the column leaves, carousels; and the
 	// column's edges written on the element, in an mj-class, or as the tag default
 	for _, body := range []int{600, 480} {
@@ -640,6 +669,9 @@ func widthDocs(tier string, seed int64) []*wDoc {
 		for j := 0; j < k; j++ {
 			if r.Bool(1, 4) {
 				g := genWidth(r)
+				if g.Kind == "xf" { // fractional pixel widths are exercised on columns only
+					g = wWidth{"x", g.roundedPx(), 1}
+				}
 				it := wItem{Group: &g}
 				for m := 0; m < 1+r.Intn(3); m++ {
 					it.Cols = append(it.Cols, genCol(r))
